@@ -257,13 +257,15 @@ var intSpellings = []string{"0", "1", "2", "3", "7", "10", "42", "255", "1000", 
 var badIntSpellings = []string{"08", "0x", "9223372036854775808", "09", "99999999999999999999"}
 var floatSpellings = []string{"0.0", "1.0", "1.5", "0.5", "0.1", "2.25", "3.14", "1e3", "1E3", "1e-3", "1.5e+3", "2.5E-2", "100.0", "123456.789", "1e6", "1e20", "1e21", "1e-5", "1e-7", "0.000001", "5e-324", "1.7976931348623157e308", "9007199254740993.0", "0.30000000000000004", "1e0", "00.5", "0e0", "4.35"}
 var badFloatSpellings = []string{"1e999", "1.8e308"}
-var strSpellings = []string{`""`, `"a"`, `"ab"`, `"hello world"`, `"x y"`, `"#not a comment"`, `"a;b"`, `"(p)"`, `"q\"uote"`, `"back\\slash"`, `"tab\there"`, `"nl\nx"`, `"\x41\x00"`, `"é"`, `"\U0001F600"`, `"\101\060"`, `"é世界"`, `"  lead"`, `"0"`, `"1.5"`, `"true"`, `"{}"`, `"\a\b\f\r\v"`, `"\xff"`}
+var strSpellings = []string{`""`, `"a"`, `"ab"`, `"hello world"`, `"x y"`, `"#not a comment"`, `"a;b"`, `"(p)"`, `"q\"uote"`, `"back\\slash"`, `"tab\there"`, `"nl\nx"`, `"\x41\x00"`, `"é"`, `"\U0001F600"`, `"\101\060"`, `"é世界"`, `"  lead"`, `"0"`, `"1.5"`, `"true"`, `"{}"`, `"\a\b\f\r\v"`, `"\xff"`,
+	// raw layout characters between the quotes: nothing inside a literal is layout
+	"\"a\rb\"", "\"x\ty\"", "\"v\vf\f.\"", "\"n\u0085l\"", "\"nb\u00a0sp\"", "\"cr\r#x;(\"", "\" \t \"", "\"\r\""}
 var badStrSpellings = []string{`"\q"`, `"\x4"`, `"\u12"`, `"\400"`, `"\'"`}
 var varNames = []string{"a", "b", "c", "x", "y", "z", "tmp_1", "Foo", "_u", "x2", "t"}
 var fieldNames = []string{"f", "g", "h", "port", "host", "name", "x", "a", "max_conn", "Flag", "t", "u", "db"}
 // block types: some differ only in case or underscores (they are different types to bind)
 var typeNames = []string{"srv", "db", "t", "u", "conf", "f", "x", "srv_x", "SrvX", "srvx", "Srv", "SRV", "d_b"}
-var blockNames = []string{`"n1"`, `"n2"`, `"a b"`, `"é"`, `""`, `"x.y"`, `"q\"q"`, `"n1."`, `".n1"`, `"x.y."`, `"."`, `"n1.."`}
+var blockNames = []string{`"n1"`, `"n2"`, `"a b"`, `"é"`, `""`, `"x.y"`, `"q\"q"`, `"n1."`, `".n1"`, `"x.y."`, `"."`, `"n1.."`, "\"a\rb\"", "\"t\tb\""}
 
 func (g *Gen) lit(kind string) Lit {
 	switch kind {
@@ -294,7 +296,7 @@ func (g *Gen) lit(kind string) Lit {
 			return Lit{"str", g.pick(badStrSpellings)}
 		}
 		sp := g.pick(strSpellings)
-		for g.OneLineStrings && (strings.Contains(sp, `\n`) || strings.Contains(sp, `\r`) || strings.Contains(sp, `\v`) || strings.Contains(sp, `\f`)) {
+		for g.OneLineStrings && (strings.Contains(sp, `\n`) || strings.Contains(sp, `\r`) || strings.Contains(sp, `\v`) || strings.Contains(sp, `\f`) || strings.ContainsAny(sp, "\r\v\f\u0085")) {
 			sp = g.pick(strSpellings)
 		}
 		return Lit{"str", sp}
